@@ -25,6 +25,7 @@ type helixObs struct {
 	Starts int    `json:"starts"`
 	Err    bool   `json:"err"` // construction failed
 	N      int    `json:"n"`
+	Long   int    `json:"long"` // 0: short screw; else length of the rod in pitches
 	Inv    int64  `json:"inv"`  // max |f(p) - f(H p)| / pitch * 1e12
 	Per    int64  `json:"per"`  // max |f(p) - f(p + pitch z)| / pitch * 1e12
 	Anti   int64  `json:"anti"` // max |f(p) - f(H' p)| / pitch * 1e6 for the opposite-handed motion H'
@@ -70,8 +71,19 @@ func isoDims(r, pitch float64) (r0, h float64) {
 	return r - 7.0/8.0*h, h
 }
 
-func measureHelix(name string, t *sdf.ThreadParameters, tol float64, tolU, starts int, rnd *rand.Rand, n int) helixObs {
-	o := helixObs{Ev: "helix", Name: name, TolU: tolU, Starts: starts, N: n}
+// c18LongRod selects (by name, so that a re-measurement of one designation selects the same) the designations
+// that are also measured as a long threaded rod.
+func c18LongRod(name string) bool {
+	h := 0
+	for _, c := range name {
+		h = (h*31 + int(c)) % 1000003
+	}
+	return h%7 == 1
+}
+
+// long > 0: a rod of `long` pitches instead of the short screw, sampled over its whole length
+func measureHelix(name string, t *sdf.ThreadParameters, tol float64, tolU, starts int, rnd *rand.Rand, n int, long float64) helixObs {
+	o := helixObs{Ev: "helix", Name: name, TolU: tolU, Starts: starts, N: n, Long: int(long)}
 	r, p := t.Radius-tol, t.Pitch
 	prof, err := sdf.ISOThread(r, p, true)
 	if err != nil {
@@ -80,6 +92,11 @@ func measureHelix(name string, t *sdf.ThreadParameters, tol float64, tolU, start
 	}
 	as := math.Abs(float64(starts))
 	length := 2 * ((3+as)*p + r + 3*p)
+	zspan := 2 * p
+	if long > 0 {
+		length = long * p
+		zspan = 0.5*length - (2+as)*p - r
+	}
 	s, err := sdf.Screw3D(prof, length, 0, p, starts)
 	if err != nil {
 		o.Err = true
@@ -92,7 +109,7 @@ func measureHelix(name string, t *sdf.ThreadParameters, tol float64, tolU, start
 	for i := 0; i < n; i++ {
 		rho := lo + (hi-lo)*rnd.Float64()
 		th := 2 * math.Pi * rnd.Float64()
-		z := (4*rnd.Float64() - 2) * p
+		z := (2*rnd.Float64() - 1) * zspan
 		phi := (4*rnd.Float64() - 2) * math.Pi
 		if i%8 == 0 {
 			phi *= 0.01 // small motions as well
@@ -104,6 +121,11 @@ func measureHelix(name string, t *sdf.ThreadParameters, tol float64, tolU, start
 		q := s.Evaluate(v3.Vec{X: rho * math.Cos(th), Y: rho * math.Sin(th), Z: z + p})
 		inv = math.Max(inv, math.Abs(f-g))
 		per = math.Max(per, math.Abs(f-q))
+		if long > 0 {
+			// a whole number of pitches back to the middle of the rod
+			zc := z - math.Round(z/p)*p
+			per = math.Max(per, math.Abs(f-s.Evaluate(v3.Vec{X: rho * math.Cos(th), Y: rho * math.Sin(th), Z: zc})))
+		}
 		anti = math.Max(anti, math.Abs(f-a))
 		if f < 0 {
 			o.In++
@@ -290,7 +312,11 @@ func c18Measure(args []string) error {
 				if tm != 0 && st != 1 && tier() != "thorough" {
 					continue
 				}
-				emit(measureHelix(v.Name, t, tol, u, st, rnd, nh))
+				emit(measureHelix(v.Name, t, tol, u, st, rnd, nh, 0))
+				if tm == 0 && st == 1 && c18LongRod(v.Name) {
+					// a threaded rod of 1300 pitches: the same laws far from the centre of the screw
+					emit(measureHelix(v.Name, t, tol, u, st, rnd, nh, 1300))
+				}
 			}
 			emit(measureMate(v.Name, t, tol, 0, u, 0, rnd))
 			emit(measureBoltNut(v.Name, t, tol, 0, u, 0, rnd))
